@@ -3,7 +3,7 @@ SPEC = dict(
     title='A failing sensor or fan read/write never crashes the daemon',
     props_file='Props/C09.v', props_mod='Props.C09',
     proof_files=['Proofs/Faults.v', 'Proofs/Daemon.v', 'Drv/Faults.v', 'Drv/Daemon.v', 'Proofs/Restore.v'],
-    tie_vo=[],
+    tie_vo=['Proofs/ConstsTie_basic.vo', 'Proofs/ConstsTie_restore.vo'],
     drivers=[dict(name='faults', drv_mod='Drv.Faults', drv_file='Drv/Faults.v', shard=300,
                   timeout={'quick': 900, 'thorough': 3000}),
              dict(name='daemon', drv_mod='Drv.Daemon', drv_file='Drv/Daemon.v', shard=50,
